@@ -12,6 +12,7 @@ import (
 	"os"
 	"sort"
 	"strings"
+	"sync"
 	"sync/atomic"
 	"time"
 
@@ -147,6 +148,7 @@ func runOnce(c Case, watchdog time.Duration) (outcome, error) {
 	var holdUntil time.Time
 	heldRead, heldAtReturn := false, false
 	retRead, stateAtReturn := false, ""
+	var mainRetMu sync.Mutex
 	abandon := false // a second Start was accepted: the run is beyond repair, report what was seen
 	stepsAfter := 0
 	launched := 0
@@ -226,7 +228,16 @@ func runOnce(c Case, watchdog time.Duration) (outcome, error) {
 		for due() {
 			launched++
 			s.Go("stop", func() string {
-				if src.Any.Stop() == nil {
+				err := src.Any.Stop()
+				if s.Passed("stop:before-return") {
+					// this call waited for the run to end: it returns only when the source is Inactive
+					if v := src.Any.VerifStateNoLock(); v != dastard.Inactive {
+						mainRetMu.Lock()
+						stateAtReturn = coqState[v]
+						mainRetMu.Unlock()
+					}
+				}
+				if err == nil {
 					return "ok"
 				}
 				return "err"
@@ -239,7 +250,9 @@ func runOnce(c Case, watchdog time.Duration) (outcome, error) {
 			// every Stop call has returned: the source must be inactive NOW (not only once the core loop gets round to it)
 			retRead = true
 			if v, ok := stateOf(src.Any, watchdog); ok && v != dastard.Inactive {
+				mainRetMu.Lock()
 				stateAtReturn = coqState[v]
+				mainRetMu.Unlock()
 			}
 		}
 		if done() {
@@ -303,6 +316,8 @@ func runOnce(c Case, watchdog time.Duration) (outcome, error) {
 		f.State = "Stopping"
 		out.Hung = true
 	}
+	mainRetMu.Lock()
+	defer mainRetMu.Unlock()
 	if stateAtReturn != "" {
 		f.State = stateAtReturn // what GetState() said when the last Stop call had just returned
 	}
